@@ -635,7 +635,12 @@ func c17Admission(c *Ctx) {
 	// isTransportSupported as a boolean function of the atoms S = isSecure(profile), T = TLSConfig != nil,
 	// U = protocol == UDP: enumerate every path to `return true` with the literals it fixes; the two
 	// refusals hold iff every such path contains (not S or T) and (not U or S or not T).
-	atom := func(v ssa.Value) (string, bool, bool) { // name, polarity-of-true, ok
+	var atom func(v ssa.Value) (string, bool, bool)
+	atom = func(v ssa.Value) (string, bool, bool) { // name, polarity-of-true, ok
+		if u, ok := v.(*ssa.UnOp); ok && u.Op == token.NOT {
+			n, pol, ok := atom(u.X)
+			return n, !pol, ok
+		}
 		switch x := v.(type) {
 		case *ssa.Call:
 			if f := x.Call.StaticCallee(); isFn(f, "", "isSecure") {
@@ -677,9 +682,9 @@ func c17Admission(c *Ctx) {
 			uVal, uKnown := l["U"]
 			ok1 := sKnown && !sVal || tKnown && tVal
 			ok2 := uKnown && !uVal || sKnown && sVal || tKnown && !tVal
-			if !isB {
-				ok1, ok2 = false, false
-			}
+			// a returned condition (the verdict of a further check, e.g. a helper about listeners) can only
+			// refuse more: the path is accepting at most when it is true, with the literals fixed so far
+			_ = isB
 			if !ok1 {
 				badPaths = append(badPaths, fmt.Sprintf("a secure profile without TLS is accepted on %v", trail))
 			}
@@ -772,41 +777,44 @@ func c17NoDowngrade(c *Ctx) {
 			continue
 		}
 		n++
-		// pattern: A: `c.Scheme == "rtsps"` dominates the store; A's true edge leads to B: `<new>.Scheme != "rtsps"`
-		// whose true edge returns an error
-		guarded := false
-		for _, b := range acc.Fn.Blocks {
-			if len(b.Instrs) == 0 || !b.Dominates(st.Block()) {
-				continue
+		// on every path to the store, either the client's scheme is known not to be rtsps (bit 1) or the
+		// adopted scheme is known to be rtsps (bit 2): established by the edges of the comparisons with
+		// "rtsps", wherever they stand (in the function, in a helper returning the verdict)
+		isRTSPS := func(v ssa.Value) bool {
+			k, ok := v.(*ssa.Const)
+			return ok && k.Value != nil && k.Value.Kind() == constant.String && constant.StringVal(k.Value) == "rtsps"
+		}
+		ff := &factFlow{}
+		ff.inline = func(h *ssa.Function) bool { return h.Pkg == acc.Fn.Pkg && !token.IsExported(h.Name()) && len(h.Blocks) <= 12 }
+		ff.onEdge = func(cond ssa.Value, pol bool, res func(ssa.Value) ssa.Value) (uint, uint) {
+			bo, ok := cond.(*ssa.BinOp)
+			if !ok || (bo.Op != token.EQL && bo.Op != token.NEQ) {
+				return 0, 0
 			}
-			iffA, ok := b.Instrs[len(b.Instrs)-1].(*ssa.If)
-			if !ok {
-				continue
+			x, y := res(stripConv(bo.X)), res(stripConv(bo.Y))
+			if isRTSPS(x) {
+				x, y = y, x
 			}
-			sa := condString(iffA.Cond, 0)
-			if !(strings.Contains(sa, "Scheme") && strings.Contains(sa, "==") && strings.Contains(sa, "\"rtsps\"")) {
-				continue
+			if !isRTSPS(y) {
+				return 0, 0
 			}
-			bb := b.Succs[0]
-			if len(bb.Instrs) == 0 {
-				continue
-			}
-			iffB, ok := bb.Instrs[len(bb.Instrs)-1].(*ssa.If)
-			if !ok {
-				continue
-			}
-			sb := condString(iffB.Cond, 0)
-			if !(strings.Contains(sb, "Scheme") && strings.Contains(sb, "!=") && strings.Contains(sb, "\"rtsps\"")) {
-				continue
-			}
-			tb := bb.Succs[0]
-			if len(tb.Instrs) > 0 {
-				if ret, ok := tb.Instrs[len(tb.Instrs)-1].(*ssa.Return); ok && len(ret.Results) > 0 && !isNilConst(ret.Results[len(ret.Results)-1]) {
-					guarded = true
+			equal := (bo.Op == token.EQL) == pol
+			ofClient := false
+			if u, ok := x.(*ssa.UnOp); ok && u.Op == token.MUL {
+				if fa, ok := u.X.(*ssa.FieldAddr); ok && core.SameField(core.FieldOfAddr(fa), f) {
+					ofClient = true
 				}
 			}
+			switch {
+			case ofClient && !equal:
+				return 1, 0
+			case !ofClient && equal:
+				return 2, 0
+			}
+			return 0, 0
 		}
-		r.Check(guarded, "C17/NO-DOWNGRADE", fnShort(acc.Fn)+" sets Client.Scheme from a URL", p.Pos(st.Pos()), "dominated by a scheme comparison whose failing edge returns an error", "the client adopts the scheme of a server-provided URL without refusing rtsps -> rtsp")
+		guarded := ff.run(acc.Fn, 0)[st].every(func(v uint) bool { return v&3 != 0 })
+		r.Check(guarded, "C17/NO-DOWNGRADE", fnShort(acc.Fn)+" sets Client.Scheme from a URL", p.Pos(st.Pos()), "on every path to the store the client's scheme is not rtsps or the adopted one is", "the client adopts the scheme of a server-provided URL without refusing rtsps -> rtsp")
 	}
 	if n == 0 {
 		r.Fail("C17/NO-DOWNGRADE", "Client.Scheme redirect store", "", "no store of a redirect scheme found: the anchor moved")
